@@ -237,6 +237,7 @@ def run(repo, rep):
     rep.clause("C16-d", "the checkers' verdict is applied to every operator, rewrites are guarded per rewrite by run_on_npu, and run_on_npu has only the reviewed writers")
     rep.clause("C16-e", "constraints that use the `axis` attribute as an index normalise a negative axis first; quantisation equality used by 'must match' constraints is exact; an activation is folded into the preceding operator only if that operator runs on the NPU")
     rule_semantics_of_helpers(repo, rep)
+    rule_round3(repo, rep)
     rep.undecided("that an operator satisfying all constraints ends up inside an Ethos-U subgraph after rewriting, packing and extraction")
     so = repo.mod("tflite_supported_operators")
     sem = repo.mod("tflite_model_semantic")
@@ -490,3 +491,39 @@ def rule_semantics_of_helpers(repo, rep):
     rep.check(len(gate) == 1 and muts and all(c.dominates(gate[0], x) for x in muts), "C16-e", "ethosu/vela/tflite_graph_optimiser.py:fuse_activation_function_with_prev",
               "prev_op is modified only after the `fuse` test", "")
     rep.floor("C16-e", 5)
+
+
+def rule_round3(repo, rep):
+    """Rewrites that run before the checks, the option that decides a check, and verdict accumulation inside a constraint."""
+    from .shared import module_axis_lint
+
+    rep.clause("C16-f", "rewrites that run before the supported-operator check compare each axis with its own extent (NHWC feature-map shapes: [1] = H, [2] = W); "
+               "compiler_driver hands optimise_graph its options in the callee's parameter order; a constraint that loops over several tensors only ever clears its verdict")
+    n = module_axis_lint(repo, rep, "C16-f", ["tflite_graph_optimiser", "graph_optimiser_util", "tflite_supported_operators", "tflite_model_semantic"],
+                         index_conventions={r"(^|\.)(ifm|ofm|ifm2)(_shape|\.shape)$": {1: "H", 2: "W", 3: "C", -3: "H", -2: "W", -1: "C"}})
+    if n < 15:
+        raise AnalysisError(f"only {n} axis-typed expressions in the graph optimiser modules")
+    # positional arguments of optimise_graph: a parameter named like an option receives that option
+    cd = repo.mod("compiler_driver").func("compiler_driver")
+    go = repo.mod("graph_optimiser").func("optimise_graph")
+    params = [a.arg for a in go.args.args]
+    calls = [c for c in calls_in(cd) if (call_name(c) or "").endswith("optimise_graph")]
+    if len(calls) != 1:
+        raise AnalysisError("compiler_driver: call of optimise_graph not found")
+    for i, a in enumerate(calls[0].args):
+        if isinstance(a, ast.Attribute) and norm(a.value) in ("options", "scheduler_options") and i < len(params):
+            rep.check(a.attr == params[i], "C16-f", "ethosu/vela/compiler_driver.py:compiler_driver", f"optimise_graph parameter `{params[i]}` receives options.{params[i]}",
+                      f"receives options.{a.attr}: --force-symmetric-int-weights no longer selects fixup over check of asymmetric weights (and --verbose-graph does)")
+    # verdict accumulation
+    so = repo.mod("tflite_supported_operators")
+    for q, fn in so.functions.items():
+        if ".constraint_" not in q:
+            continue
+        for lp in [x for x in ast.walk(fn) if isinstance(x, ast.For)]:
+            for st in ast.walk(lp):
+                if isinstance(st, ast.Assign) and len(st.targets) == 1 and norm(st.targets[0]) == "valid" and not (isinstance(st.value, ast.Constant) and st.value.value is False):
+                    if any(isinstance(x, ast.Name) and x.id == "valid" for x in ast.walk(st.value)):
+                        continue  # valid = valid and ... / valid &= ...
+                    rep.bad("C16-f", f"ethosu/vela/tflite_supported_operators.py:{q}", f"`{str(norm(st))[:60]}` inside `for {str(norm(lp.target))} in {str(norm(lp.iter))[:40]}`",
+                            "the verdict is overwritten per element: a violation found for an earlier tensor is forgotten when a later tensor is fine")
+    rep.floor("C16-f", 15)
